@@ -3,14 +3,19 @@
    Paths travel as absolute posix strings ("/R/cwd/pipelines"); the file system as the lists of
    files and directories that exist.
 
-   resolve.path  {name, parent: str|null, cwd, builtin, files: [str], dirs: [str]}
-                 → {ok: str} | {err: str}
+   resolve.path  {name, parent: str|null, cwd, builtin, files: [str], dirs: [str], links?, osCwd?: str}
+                 → {ok: str} | {err: str}      (`getPipelinePathA`: a relative parent is read against osCwd)
    resolve.args  {pype: {loader?, resolveFromParent?, parent?}, info: {loader, parent, isLoaderCascading,
                   isParentCascading}} → {loader: str|null, parent: str|null}
-   resolve.chain {cwd, builtin, files, dirs, rootLoader: str|null, custom: [[name, parentCasc, loaderCasc]…],
-                  hops: [{name, pype}…]}
-                 → {loaded: [{file: str} | {custom: [loader, name, parent|null]}…], err: str|null,
-                    sysPath: [str…]}   (sysPath = entries appended, in order)
+   resolve.chain {cwd, builtin, files, dirs, links?: [[link, target]…], rootLoader: str|null,
+                  custom: [[name, parentCasc, loaderCasc]…], hops: [{name, pype, pyDir?: str|null}…],
+                  mods?: [[dir, [module…]]…], stepMods?: [[file, [module…]]…], sysPath0?: [str…]}
+                 → {loaded: [{file: str, imports: [[m, dir|null]…]} | {custom: [loader, name, parent|null], imports}…],
+                    err: str|null, sysPath: [str…]}   (sysPath = entries appended after sysPath0, in order)
+                 `Resolve.runChainR`: names may contain `..`; `links` are symlinks (file or directory; absolute
+                 targets), followed by the file-system predicates and by `realpath` like the OS / `Path.resolve()`.
+   resolve.chains {…as chain without rootLoader/hops…, runs: [{rootLoader, hops}…]}
+                 → {runs: [{loaded, err}…], sysPath}   several root pipelines one after the other in ONE process
    resolve.session {cwd, builtin, files, dirs, noCache: bool,
                     ops: [["req", obj, name, parent|null] | ["fs", {files, dirs}] | ["clear"] | ["noCache", b]
                           | ["pyDir", dir]…]}
@@ -47,16 +52,80 @@ def optPath (j : Json) : Except String (Option Path) :=
   | .str s => if s.isEmpty then pure none else (pathOfStr s).map some
   | _ => .error "parent must be a string or null"
 
+/-- "/a/../b" → ["a","..","b"]: absolute, no empty or `.` segment -/
+def pathOfStrDD (s : String) : Except String Path :=
+  if s == "/" then pure []
+  else match s.splitOn "/" with
+    | "" :: rest => if rest.any (fun x => x.isEmpty || x == ".") then .error s!"path not clean: {s}" else pure rest
+    | _ => .error s!"path not absolute: {s}"
+
+/-- a parent / py_dir that may contain `..` (resolved by the model's `realpath`) -/
+def optPathDD (j : Json) : Except String (Option Path) :=
+  match j with
+  | .null => pure none
+  | .str s => if s.isEmpty then pure none else (pathOfStrDD s).map some
+  | _ => .error "parent must be a string or null"
+
 def strList (j : Json) : Except String (List String) := do
   (← j.getArr?).toList.mapM Json.getStr?
+
+/-- resolve a path component by component like the OS: a component that is a symlink is replaced
+    by its (absolute) target, `..` leaves the directory reached so far — which must exist.
+    `none`: the OS would fail (`..` out of a directory that is not there). Fuel bounds link chains. -/
+def walkL (links : List (Path × Path)) (dirs : List Path) : Nat → Path → Path → Option Path
+  | 0, _, _ => none
+  | _, acc, [] => some acc
+  | n + 1, acc, ".." :: rest =>
+    if acc.isEmpty || dirs.contains acc then walkL links dirs n acc.dropLast rest else none
+  | n + 1, acc, x :: rest =>
+    match links.lookup (acc ++ [x]) with
+    | some t => walkL links dirs n [] (t ++ rest)
+    | none => walkL links dirs n (acc ++ [x]) rest
+
+/-- `Path.resolve()` (non-strict): as `walkL`, but `..` pops what has been resolved so far without
+    asking whether it exists (`posixpath._joinrealpath`) -/
+def resolveL (links : List (Path × Path)) : Nat → Path → Path → Path
+  | 0, acc, rest => acc ++ rest
+  | _, acc, [] => acc
+  | n + 1, acc, ".." :: rest => resolveL links n acc.dropLast rest
+  | n + 1, acc, x :: rest =>
+    match links.lookup (acc ++ [x]) with
+    | some t => resolveL links n [] (t ++ rest)
+    | none => resolveL links n (acc ++ [x]) rest
+
+def walkFuel : Nat := 400
+
+/-- the file system from the lists of REAL files and directories and the symlinks -/
+def fsOfLinks (cwd builtin : Path) (files dirs : List Path) (links : List (Path × Path)) : Fs :=
+  { cwd := cwd, builtin := builtin,
+    isFile := fun p => match walkL links dirs walkFuel [] p with
+      | some q => files.contains q
+      | none => false,
+    dirExists := fun d => match walkL links dirs walkFuel [] d with
+      | some q => q.isEmpty || dirs.contains q
+      | none => false,
+    realpath := fun p => resolveL links walkFuel [] p }
+
+def linksOfJson (j : Json) : Except String (List (Path × Path)) :=
+  match j.getObjVal? "links" with
+  | .error _ => pure []
+  | .ok l => do
+    (← l.getArr?).toList.mapM fun e => do
+      match (← e.getArr?).toList with
+      | [.str a, .str b] => pure ((← pathOfStr a), (← pathOfStr b))
+      | _ => .error "bad link entry"
 
 def fsOfJson (j : Json) : Except String Fs := do
   let cwd ← pathOfStr (← (← j.getObjVal? "cwd").getStr?)
   let builtin ← pathOfStr (← (← j.getObjVal? "builtin").getStr?)
   let files ← (← strList (← j.getObjVal? "files")).mapM pathOfStr
   let dirs ← (← strList (← j.getObjVal? "dirs")).mapM pathOfStr
-  pure { cwd := cwd, builtin := builtin, isFile := fun p => files.contains p,
-         dirExists := fun d => dirs.contains d }
+  let links ← linksOfJson j
+  let fs := fsOfLinks cwd builtin files dirs links
+  -- `config.cwd = Path.cwd()` and the package directory are real paths
+  if fs.realpath cwd != cwd || fs.realpath builtin != builtin then
+    .error "out of domain: the cwd / the built-in directory is reached through a symlink"
+  pure fs
 
 def pypeOfJson (j : Json) : Except String PypeIn := do
   let loader ← match j.getObjVal? "loader" with
@@ -69,7 +138,7 @@ def pypeOfJson (j : Json) : Except String PypeIn := do
     | .ok v => (Val.ofJson v).map some
   let parent ← match j.getObjVal? "parent" with
     | .error _ => pure none
-    | .ok v => (optPath v).map some
+    | .ok v => (optPathDD v).map some
   pure { loader := loader, resolveFromParent := rfp, parent := parent }
 
 def optPathJson : Option Path → Json
@@ -79,6 +148,9 @@ def optPathJson : Option Path → Json
 def loadedToJson : Loaded → Json
   | .file p => Json.mkObj [("file", Json.str (pathStr p))]
   | .custom l n par _ _ => Json.mkObj [("custom", Json.arr #[Json.str l, Json.str n, optPathJson par])]
+
+def importsToJson (xs : List (String × Option Path)) : Json :=
+  Json.arr (xs.map fun (m, d) => Json.arr #[Json.str m, optPathJson d]).toArray
 
 
 /-! ### `resolve.session`: sequences of look-ups through the warm pipeline cache -/
@@ -153,14 +225,89 @@ def handleSession (j : Json) : Except String Json := do
     (resJson x.1).setObjVal! "clean" (Json.bool x.2.1) |>.setObjVal! "cold" (resJson x.2.2)
       |>.setObjVal! "sysPath" sp).toArray)])
 
+/-! ### `resolve.chain` / `resolve.chains`: `runChainR` -/
+
+def runOfJson (j : Json) : Except String (Option String × List Hop) := do
+  let rootLoader ← match ← j.getObjVal? "rootLoader" with
+    | .null => pure none
+    | .str s => pure (some s)
+    | _ => .error "rootLoader must be a string or null"
+  let hops ← (← (← j.getObjVal? "hops").getArr?).toList.mapM fun h => do
+    let nameStr ← (← h.getObjVal? "name").getStr?
+    let pype ← pypeOfJson (← h.getObjVal? "pype")
+    let pyDir ← match h.getObjVal? "pyDir" with
+      | .error _ => pure none
+      | .ok v => optPathDD v
+    pure ({ nameStr := nameStr, name := ← nameOfStrDD nameStr, pype := pype, pyDir := pyDir } : Hop)
+  pure (rootLoader, hops)
+
+def handleChains (j : Json) (runs : List (Option String × List Hop)) : Except String Json := do
+  let fs ← fsOfJson j
+  let customs ← (← (← j.getObjVal? "custom").getArr?).toList.mapM fun c => do
+    match (← c.getArr?).toList with
+    | [.str n, .bool pc, .bool lc] => pure (n, pc, lc)
+    | _ => .error "bad custom loader entry"
+  let custom := fun l => (customs.find? (·.1 == l)).map (·.2)
+  let mods ← match j.getObjVal? "mods" with
+    | .error _ => pure []
+    | .ok m => (← m.getArr?).toList.mapM fun e => do
+      match (← e.getArr?).toList with
+      | [.str d, ms] => pure ((← pathOfStr d), (← strList ms))
+      | _ => .error "bad mods entry"
+  let has : Path → String → Bool := fun d m => match mods.lookup d with
+    | some ms => ms.contains m
+    | none => false
+  -- which modules the steps of a pipeline FILE import before its pype step: [[file, [module…]]…]
+  let stepMods ← match j.getObjVal? "stepMods" with
+    | .error _ => pure []
+    | .ok m => (← m.getArr?).toList.mapM fun e => do
+      match (← e.getArr?).toList with
+      | [.str f, ms] => pure ((← pathOfStr f), (← strList ms))
+      | _ => .error "bad stepMods entry"
+  let importsOf : Loaded → List String
+    | .file p => (stepMods.lookup p).getD []
+    | _ => []
+  let sp0 ← match j.getObjVal? "sysPath0" with
+    | .error _ => pure []
+    | .ok v => (← strList v).mapM pathOfStr
+  let st0 : Proc := { load := { fileCache := [], sysPath := sp0, known := [] } }
+  let mut st := st0
+  let mut out : Array Json := #[]
+  for (rootLoader, hops) in runs do
+    let (loaded, err, st') := runChainR fs custom has importsOf st none rootLoader hops
+    -- reject chains that name a loader nobody declared
+    match err with
+    | some e => if e.startsWith "no such loader " then throw e else pure ()
+    | none => pure ()
+    st := st'
+    out := out.push (Json.mkObj [
+      ("loaded", Json.arr (loaded.map fun (ld, imps) => (loadedToJson ld).setObjVal! "imports" (importsToJson imps)).toArray),
+      ("err", match err with | some e => Json.str e | none => Json.null)])
+  pure (Json.mkObj [
+    ("runs", Json.arr out),
+    ("sysPath", Json.arr ((st.load.sysPath.drop sp0.length).map fun p => Json.str (pathStr p)).toArray)])
+
 def handle (op : String) (j : Json) : Except String Json := do
   match op with
   | "session" => handleSession j
   | "path" =>
     let fs ← fsOfJson j
-    let name ← nameOfStr (← (← j.getObjVal? "name").getStr?)
-    let parent ← optPath (← j.getObjVal? "parent")
-    match getPipelinePath fs name parent with
+    let name ← nameOfStrDD (← (← j.getObjVal? "name").getStr?)
+    -- `osCwd` (optional): the OS working directory at the call; a relative parent needs it
+    let osCwd ← match j.getObjVal? "osCwd" with
+      | .error _ => pure fs.cwd
+      | .ok v => pathOfStr (← v.getStr?)
+    let parent ← match ← j.getObjVal? "parent" with
+      | .null => pure none
+      | .str s =>
+        if s.isEmpty then pure none
+        else if s.startsWith "/" then (pathOfStrDD s).map (fun p => some (PathArg.abs p))
+        else
+          let parts := s.splitOn "/"
+          if parts.any (fun x => x.isEmpty || x == ".") then .error s!"parent not clean: {s}"
+          else pure (some (PathArg.rel parts))
+      | _ => .error "parent must be a string or null"
+    match getPipelinePathA fs osCwd name parent with
     | .ok p => pure (Json.mkObj [("ok", Json.str (pathStr p))])
     | .error e => pure (Json.mkObj [("err", Json.str e)])
   | "args" =>
@@ -175,30 +322,13 @@ def handle (op : String) (j : Json) : Except String Json := do
       ("loader", match childLoader pype info with | some s => Json.str s | none => Json.null),
       ("parent", optPathJson (childParent pype info))])
   | "chain" =>
-    let fs ← fsOfJson j
-    let rootLoader ← match ← j.getObjVal? "rootLoader" with
-      | .null => pure none
-      | .str s => pure (some s)
-      | _ => .error "rootLoader must be a string or null"
-    let customs ← (← (← j.getObjVal? "custom").getArr?).toList.mapM fun c => do
-      match (← c.getArr?).toList with
-      | [.str n, .bool pc, .bool lc] => pure (n, pc, lc)
-      | _ => .error "bad custom loader entry"
-    let hops ← (← (← j.getObjVal? "hops").getArr?).toList.mapM fun h => do
-      let nameStr ← (← h.getObjVal? "name").getStr?
-      let pype ← pypeOfJson (← h.getObjVal? "pype")
-      pure ({ nameStr := nameStr, name := ← nameOfStr nameStr, pype := pype } : Hop)
-    let custom := fun l => (customs.find? (·.1 == l)).map (·.2)
-    -- reject chains that name a loader nobody declared
-    let st0 : LoadState := { fileCache := [], sysPath := [], known := [] }
-    let (loaded, err, st) := runChain fs custom st0 none rootLoader hops
-    match err with
-    | some e => if e.startsWith "no such loader " then .error e else pure ()
-    | none => pure ()
-    pure (Json.mkObj [
-      ("loaded", Json.arr (loaded.map loadedToJson).toArray),
-      ("err", match err with | some e => Json.str e | none => Json.null),
-      ("sysPath", Json.arr (st.sysPath.map fun p => Json.str (pathStr p)).toArray)])
+    let r ← handleChains j [← runOfJson j]
+    match r.getObjVal? "runs" with
+    | .ok (.arr #[one]) => pure (one.setObjVal! "sysPath" (r.getObjValD "sysPath"))
+    | _ => .error "internal: chain"
+  | "chains" =>
+    let runs ← (← (← j.getObjVal? "runs").getArr?).toList.mapM runOfJson
+    handleChains j runs
   | _ => .error s!"unknown op {op}"
 
 end Pypyr.OpResolve
